@@ -46,7 +46,7 @@ type concCase struct {
 }
 
 var concKinds = []string{"canon-own", "canon-shared", "canon-alloc", "iter", "dawg-build", "dawg-lookup", "dawg-search", "observe",
-	"invariants", "codecs", "cliques-chan", "comb", "sortints", "random", "generators", "tsp", "colouring", "dawg-gob", "search-saveload", "views", "canon-big", "canon-big", "derive-edit", "compute-then-edit", "shared-arguments"}
+	"invariants", "codecs", "cliques-chan", "comb", "sortints", "random", "generators", "tsp", "colouring", "dawg-gob", "search-saveload", "views", "canon-big", "canon-big", "derive-edit", "compute-then-edit", "shared-arguments", "big-shared", "big-shared"}
 
 func genConcCase(t *rapid.T) concCase {
 	words := genWordSet(t, []byte{'a', 'b', 'c'}, 12, 4)
@@ -127,6 +127,21 @@ type concShared struct {
 	a, b   sortints.SortedInts
 	rack   []byte // an unsorted pattern / rack shared by all goroutines that build searchers from it
 }
+
+// bigShared is read by every goroutine that runs a "big-shared" task.
+var bigShared = func() struct {
+	dense  *graph.DenseGraph
+	sparse *graph.SparseGraph
+} {
+	g := mCycle(36)
+	g.Add(0, 18)
+	g.Add(5, 23)
+	g.Add(9, 30)
+	return struct {
+		dense  *graph.DenseGraph
+		sparse *graph.SparseGraph
+	}{denseOf(g), sparseOf(g)}
+}()
 
 // sharedArgs are argument values that every goroutine hands to the library (which must treat them as read-only).
 var sharedArgs = struct {
@@ -369,6 +384,22 @@ func runConcTask(sh *concShared, tk cTask) string {
 					}
 					fmt.Fprint(&sb, own.N(), own.M(), own.Degrees(), ";")
 				}
+			}
+		}
+	case "big-shared":
+		// ONE shared 36-vertex graph (a cycle with three chords; biconnected, cyclomatic number 4), held dense and sparse,
+		// is counted, measured and observed by several goroutines at once: nobody may modify it, not even temporarily
+		for _, gr := range []graph.EditableGraph{bigShared.dense, bigShared.sparse} {
+			switch (tk.A + tk.B) % 4 {
+			case 0:
+				fmt.Fprint(&sb, graph.NumberOfCycles(gr))
+			case 1:
+				fmt.Fprint(&sb, gr.M(), gr.Degrees(), gr.Neighbours(tk.A%36), gr.IsEdge(0, 35), gr.IsEdge(0, 18))
+			case 2:
+				bl, art := graph.BiconnectedComponents(gr)
+				fmt.Fprint(&sb, len(bl), art, graph.Girth(gr), graph.Diameter(gr))
+			default:
+				fmt.Fprint(&sb, graph.NumberOfInducedCycles(gr, 6), graph.IsPlanar(gr), graph.Graph6Encode(gr))
 			}
 		}
 	case "shared-arguments":
@@ -650,7 +681,7 @@ func checkConcCase(c concCase, rec *Rec) error {
 
 func init() {
 	s := RegisterRapid("C19_concurrent_workloads",
-		"rapid (run from the -race binary): a workload of 3..~25 tasks drawn from 24 kinds - all m shards of search.All(n<=6), CanonicalIsomorphFull on own graphs (incl. 24..44-vertex graphs with large cells) and on ONE shared read-only graph held as dense/sparse/three views, CanonicalIsomorphAllocated with own storage, eight itertools iterators, own dawg Builders, Lookup and Search (own searchers) on ONE shared Dawg (half of the time with 24 links at the root and at a second-level node), observers / clique / colouring / distance / block / counting / planarity / codec functions on the shared graph, AllMaximalCliques with own channels, comb and sortints functions on shared read-only slices, RandomGraph/RandomTree, the named generators, tsp.LIB to own buffers, GobEncode of the shared Dawg + GobDecode into an own one, an own pruned search that is saved and resumed, induced-subgraph and complement views created over the shared graphs, deep copies (Copy, InducedSubgraph on prefixes) derived from the shared graphs and then edited, own graphs edited immediately after each library call on them returns, own graphs built and grown from argument slices that all goroutines share; half of the tasks are duplicated so that two goroutines run identical code on the shared values. Each task's result is computed alone (before the concurrent rounds, or - in half of the cases - after the first one, so that lazily filled caches are still cold when the goroutines start), and all tasks run on 2..16 goroutines behind a start barrier with GOMAXPROCS in {1,2,4,16}, 1..3 rounds. Violation: any race-detector report (GORACE=halt_on_error), any panic, any result that differs from the sequential one, or shards that no longer partition the classes. Schedules are sampled, not enumerated. Non-trivial: >= 2 tasks on >= 2 goroutines.",
+		"rapid (run from the -race binary): a workload of 3..~25 tasks drawn from 25 kinds - all m shards of search.All(n<=6), CanonicalIsomorphFull on own graphs (incl. 24..44-vertex graphs with large cells) and on ONE shared read-only graph held as dense/sparse/three views, CanonicalIsomorphAllocated with own storage, eight itertools iterators, own dawg Builders, Lookup and Search (own searchers) on ONE shared Dawg (half of the time with 24 links at the root and at a second-level node), observers / clique / colouring / distance / block / counting / planarity / codec functions on the shared graph, AllMaximalCliques with own channels, comb and sortints functions on shared read-only slices, RandomGraph/RandomTree, the named generators, tsp.LIB to own buffers, GobEncode of the shared Dawg + GobDecode into an own one, an own pruned search that is saved and resumed, induced-subgraph and complement views created over the shared graphs, deep copies (Copy, InducedSubgraph on prefixes) derived from the shared graphs and then edited, own graphs edited immediately after each library call on them returns, own graphs built and grown from argument slices that all goroutines share, NumberOfCycles / blocks / observers on ONE shared 36-vertex graph; half of the tasks are duplicated so that two goroutines run identical code on the shared values. Each task's result is computed alone (before the concurrent rounds, or - in half of the cases - after the first one, so that lazily filled caches are still cold when the goroutines start), and all tasks run on 2..16 goroutines behind a start barrier with GOMAXPROCS in {1,2,4,16}, 1..3 rounds. Violation: any race-detector report (GORACE=halt_on_error), any panic, any result that differs from the sequential one, or shards that no longer partition the classes. Schedules are sampled, not enumerated. Non-trivial: >= 2 tasks on >= 2 goroutines.",
 		Budget{Checks: 150, Shards: 3}, Budget{Checks: 1500, Shards: 16}, genConcCase, checkConcCase)
 	s.Race = true
 }
